@@ -6,26 +6,26 @@ ROOT = os.path.dirname(os.path.dirname(os.path.abspath(__file__)))
 E1, E2, E3 = "vrt-explorer", "history-bfs", "scope-enum"
 # session 3: what was added to each check's scope (appended to the level text)
 EXTRA = {
- "C01": " Byte counts also under a sink that fails after every possible number of bytes. A description with a run of blanks. Finally (E1, controlled scheduler, whole library instrumented): two goroutines performing the property's calls on unrelated objects - no race, panic or deadlock on any schedule, results as when run alone.",
+ "C01": " Byte counts also under a sink that fails after every possible number of bytes. A description with a run of blanks. Finally (E1, controlled scheduler, whole library instrumented): two goroutines performing the property's calls on unrelated objects - no race, panic or deadlock on any schedule, results as when run alone. A record equal to its predecessor is written as the same object.",
  "C02": " Byte counts also under a sink that fails after every possible number of bytes; a third of the cases again behind a line the reader rejects. Finally (E1, controlled scheduler, whole library instrumented): two goroutines performing the property's calls on unrelated objects - no race, panic or deadlock on any schedule, results as when run alone.",
- "C03": " Plus the size ladder (2^k-1, 2^k, 2^k+1 up to 1025, thorough 8193) of every field size, and a GFF reader with date parsing off. FASTQ quality lines with white space inside. Metadata lines with an emptied field, BED12 lines without blocks. Finally (E1, controlled scheduler, whole library instrumented): two goroutines performing the property's calls on unrelated objects - no race, panic or deadlock on any schedule, results as when run alone.",
- "C04": " Plus FASTA with ID / sequence-line prefixes and blank lines that hold white space. BED/GFF records whose line straddles the 4096-byte read buffer; a second pass of the same BED/GFF reader after its source was rewound. Finally (E1, controlled scheduler, whole library instrumented): two goroutines performing the property's calls on unrelated objects - no race, panic or deadlock on any schedule, results as when run alone.",
- "C05": " Plus row-view RevComp/Reverse, going on with the other copy, emptied sequences, Multi layouts with an empty row, and the size ladder 7..4097 (thorough 16385) for every kind. Objects all of whose rows lie at +-2^40 and around +-2^31. Finally (E1, controlled scheduler, whole library instrumented): two goroutines performing the property's calls on unrelated objects - no race, panic or deadlock on any schedule, results as when run alone.",
- "C06": " Every case again directly after a rejected call; feature lists of ladder size (3..257, thorough 1025). Destinations that are other objects over the source's array. The masking letter x among the letters. Finally (E1, controlled scheduler, whole library instrumented): two goroutines performing the property's calls on unrelated objects - no race, panic or deadlock on any schedule, results as when run alone.",
- "C07": " Plus a rejected AppendColumns among the edits and grids / appends of ladder size (3..257, thorough 1025). Column views held across later Column calls on the container and a clone. Rows that hold no letters yet. Finally (E1, controlled scheduler, whole library instrumented): two goroutines performing the property's calls on unrelated objects - no race, panic or deadlock on any schedule, results as when run alone.",
- "C08": " Plus every word pair directly after a rejected call, a 6-letter (thorough 21-letter) alphabet with asymmetric matrices, and 260/520-letter words with single indels around 256/512 and gap blocks of 63..129. Sequences that hold the gap letter itself. Finally (E1, controlled scheduler, whole library instrumented): two goroutines performing the property's calls on unrelated objects - no race, panic or deadlock on any schedule, results as when run alone.",
- "C09": " Plus every word pair directly after a rejected call, a 6-letter (thorough 21-letter) alphabet with asymmetric matrices, and 260/520-letter words with single indels around 256/512 and gap blocks of 63..129 (also through Format). Every matrix shape of 1..5 rows with rows one off square; sequences that hold the gap letter itself; the pairs turned round with Invert after they were read. Format also over quality-carrying sequences. Finally (E1, controlled scheduler, whole library instrumented): two goroutines performing the property's calls on unrelated objects - no race, panic or deadlock on any schedule, results as when run alone.",
- "C10": " Plus sequences of 2^j+9 letters (j=6..9, thorough 10) with an invalid letter around every power of two; the maps asked for before Build. Sequences built from a caller's buffer that is overwritten afterwards. Finally (E1, controlled scheduler, whole library instrumented): two goroutines performing the property's calls on unrelated objects - no race, panic or deadlock on any schedule, results as when run alone.",
+ "C03": " Plus the size ladder (2^k-1, 2^k, 2^k+1 up to 1025, thorough 8193) of every field size, and a GFF reader with date parsing off. FASTQ quality lines with white space inside. Metadata lines with an emptied field, BED12 lines without blocks. Finally (E1, controlled scheduler, whole library instrumented): two goroutines performing the property's calls on unrelated objects - no race, panic or deadlock on any schedule, results as when run alone. FASTA/FASTQ read into templates of the caller's own that refuse some names and descriptions.",
+ "C04": " Plus FASTA with ID / sequence-line prefixes and blank lines that hold white space. BED/GFF records whose line straddles the 4096-byte read buffer; a second pass of the same BED/GFF reader after its source was rewound. Finally (E1, controlled scheduler, whole library instrumented): two goroutines performing the property's calls on unrelated objects - no race, panic or deadlock on any schedule, results as when run alone. A template that refuses an empty description.",
+ "C05": " Plus row-view RevComp/Reverse, going on with the other copy, emptied sequences, Multi layouts with an empty row, and the size ladder 7..4097 (thorough 16385) for every kind. Objects all of whose rows lie at +-2^40 and around +-2^31. Finally (E1, controlled scheduler, whole library instrumented): two goroutines performing the property's calls on unrelated objects - no race, panic or deadlock on any schedule, results as when run alone. Rows left of the origin, rows that share a name, Clone of a Multi holding one row object twice.",
+ "C06": " Every case again directly after a rejected call; feature lists of ladder size (3..257, thorough 1025). Destinations that are other objects over the source's array. The masking letter x among the letters. Finally (E1, controlled scheduler, whole library instrumented): two goroutines performing the property's calls on unrelated objects - no race, panic or deadlock on any schedule, results as when run alone. The source's annotation (strand, conformation, name, offset) unchanged too; long segments; coordinates beyond 32 bits.",
+ "C07": " Plus a rejected AppendColumns among the edits and grids / appends of ladder size (3..257, thorough 1025). Column views held across later Column calls on the container and a clone. Rows that hold no letters yet. Finally (E1, controlled scheduler, whole library instrumented): two goroutines performing the property's calls on unrelated objects - no race, panic or deadlock on any schedule, results as when run alone. A row object held twice under Flush; a quality alignment with CaseFilter.",
+ "C08": " Plus every word pair directly after a rejected call, a 6-letter (thorough 21-letter) alphabet with asymmetric matrices, and 260/520-letter words with single indels around 256/512 and gap blocks of 63..129. Sequences that hold the gap letter itself. Finally (E1, controlled scheduler, whole library instrumented): two goroutines performing the property's calls on unrelated objects - no race, panic or deadlock on any schedule, results as when run alone. A sequence aligned against itself as one object; a caller's own stateful AlphabetSlicer; a gap run of every length 1..300; scores beyond 32 bits.",
+ "C09": " Plus every word pair directly after a rejected call, a 6-letter (thorough 21-letter) alphabet with asymmetric matrices, and 260/520-letter words with single indels around 256/512 and gap blocks of 63..129 (also through Format). Every matrix shape of 1..5 rows with rows one off square; sequences that hold the gap letter itself; the pairs turned round with Invert after they were read. Format also over quality-carrying sequences. Finally (E1, controlled scheduler, whole library instrumented): two goroutines performing the property's calls on unrelated objects - no race, panic or deadlock on any schedule, results as when run alone. A caller's own stateful AlphabetSlicer, an alignment row of another alphabet as the query, a reference that is a window of the query's storage.",
+ "C10": " Plus sequences of 2^j+9 letters (j=6..9, thorough 10) with an invalid letter around every power of two; the maps asked for before Build. Sequences built from a caller's buffer that is overwritten afterwards. Finally (E1, controlled scheduler, whole library instrumented): two goroutines performing the property's calls on unrelated objects - no race, panic or deadlock on any schedule, results as when run alone. A callback that starts a traversal of its own on the index it is handed; ladder lengths to 2049 (5001).",
  "C11": " Plus the size ladder: chunk sizes 2^k-1, 2^k, 2^k+1 to 2049 (thorough 4097) and 7..513 run files. Eight further element types sorted in turn in one process. Finally (E1, controlled scheduler, whole library instrumented): two goroutines performing the property's calls on unrelated objects - no race, panic or deadlock on any schedule, results as when run alone.",
  "C13": " Plus residue histories with 15..513 run files. A driver over the library's own filter.Hit elements.",
  "C14": " Plus space G (an earlier Filter call that fails half way) and space H (queries of 2^j+40 letters, plants around every power of two). Caller-declared upper-case and case-sensitive alphabets. Finally (E1, controlled scheduler, whole library instrumented): two goroutines performing the property's calls on unrelated objects - no race, panic or deadlock on any schedule, results as when run alone.",
- "C15": " Plus targets of 2^k-1, 2^k, 2^k+1 (k=11..14) and 6/11/20 kb, a rejected re-optimisation before Align, AlignFrom(Trapezoids()), and Share from an aligner that searched another query. An aligner that searched both strands before its query object was overwritten in place. Finally (E1, controlled scheduler, whole library instrumented): two goroutines performing the property's calls on unrelated objects - no race, panic or deadlock on any schedule, results as when run alone.",
- "C16": " Plus a filter that looks at the piles and piles of 7..257 images joined by a bridging feature. Pairs made by NewPair from hits on a packed sequence. Finally (E1, controlled scheduler, whole library instrumented): two goroutines performing the property's calls on unrelated objects - no race, panic or deadlock on any schedule, results as when run alone.",
+ "C15": " Plus targets of 2^k-1, 2^k, 2^k+1 (k=11..14) and 6/11/20 kb, a rejected re-optimisation before Align, AlignFrom(Trapezoids()), and Share from an aligner that searched another query. An aligner that searched both strands before its query object was overwritten in place. Finally (E1, controlled scheduler, whole library instrumented): two goroutines performing the property's calls on unrelated objects - no race, panic or deadlock on any schedule, results as when run alone. AlignFrom seeded by a Logger that reads Trapezoids() when told they were merged; settings in the hundreds and thousands.",
+ "C16": " Plus a filter that looks at the piles and piles of 7..257 images joined by a bridging feature. Pairs made by NewPair from hits on a packed sequence. Finally (E1, controlled scheduler, whole library instrumented): two goroutines performing the property's calls on unrelated objects - no race, panic or deadlock on any schedule, results as when run alone. Every multiset again left of the origin; a comb of piles bridged run by run.",
  "C17": " Plus AllValid on ladder lengths to 1025 and uncased complementors spelt in upper / mixed case. Case-sensitive alphabets with a letter in both cases, expanded-equal alphabets built in turn, one-case pairings under a case-insensitive complementor (method vs table). Tables kept across other alphabets' tables; built-ins after use by sequences. Finally (E1, controlled scheduler, whole library instrumented): two goroutines performing the property's calls on unrelated objects - no race, panic or deadlock on any schedule, results as when run alone.",
  "C18": " Plus records rendered while empty, %.0q after SetEncoding, and (free-running, six processes) first uses made by eight goroutines at once. The encoding changed by assigning the exported Encode field. Solexa printable range from byte 33; containers on a location with SetOffset. Finally (E1, controlled scheduler, whole library instrumented): two goroutines performing the property's calls on unrelated objects - no race, panic or deadlock on any schedule, results as when run alone.",
  "C19": " Plus Map over 7..513 (thorough 2049) one-element chunks on the canonical schedule. Wait called by two goroutines and twice in a row; Fulfill(nil) as the first fulfilment. util instrumented too; two Map calls at once; listeners' receives as steps of their own; Working() after Wait.",
- "C12": " Plus 64 / 257 runs (thorough every ladder size to 513) on the canonical schedule. A driver whose executions turn out not to be independent within one process (package-level state) is explored again with one process per execution. A driver over the library's own filter.Hit elements.",
- "C20": " Plus SetExons of the transcript's own slice extended with append, and transcripts of 2..40 and 63..257 exons. A gene on a genome.Fragment on a genome.Chromosome. Finally (E1, controlled scheduler, whole library instrumented): two goroutines performing the property's calls on unrelated objects - no race, panic or deadlock on any schedule, results as when run alone.",
+ "C12": " Plus 64 / 257 runs (thorough every ladder size to 513) on the canonical schedule. A driver whose executions turn out not to be independent within one process (package-level state) is explored again with one process per execution. A driver over the library's own filter.Hit elements. Keys that tie under Less within a run; Finalise called twice; same-named local element types.",
+ "C20": " Plus SetExons of the transcript's own slice extended with append, and transcripts of 2..40 and 63..257 exons. A gene on a genome.Fragment on a genome.Chromosome. Finally (E1, controlled scheduler, whole library instrumented): two goroutines performing the property's calls on unrelated objects - no race, panic or deadlock on any schedule, results as when run alone. The gene turned round after the UTRs were asked for.",
 }
 
 # id: (engine, level, design_ref, technique, text, note)
